@@ -685,6 +685,82 @@ example : C22.parseIp (asciiBytes (textV6 [0x20,1,0xd,0xb8,0,0,0,0,0,1,0,0,0,0,0
 example : C22.parseIp (asciiBytes (textV6 [0,0,0,0,0,0,0,0,0,0,0xff,0xff,1,2,3,4])) =
     some (.v6 0xffff01020304 none) := by decide +kernel
 
+/-! ### round 5: whole-history forms of the remaining reject clauses, and the outcome trichotomy -/
+
+/-- **unknown address type** (whole history): after any accepted greeting (+ auth), a CONNECT request with an ATYP
+    other than 1, 3, 4 (5 bytes of it available), cut in any way: REP 08, client closed, no destination, nothing opened,
+    nothing relayed. -/
+theorem unknown_atyp_rejected (env : Env) (segs : List Bytes) (pre : Bytes) (a x : UInt8) (tl : Bytes)
+    (hflat : segs.flatten = pre ++ (5 :: 1 :: 0 :: a :: x :: tl)) (hpre : ValidPre env pre)
+    (h1 : a ≠ 1) (h4 : a ≠ 4) (h3 : a ≠ 3) :
+    let r := (inc env).feedAll init segs
+    r.1 = .done ∧ sends r.2 = preSends env ++ [reply 8] ∧ r.2.getLast? = some .close ∧
+      setAddrs r.2 = [] ∧ Out.openServer ∉ r.2 ∧ childBytes r.2 = [] ∧ Out.childStart ∉ r.2 := by
+  intro r
+  have hr : r = feed env init segs.flatten := seg_independent env init segs
+  obtain ⟨o, ho, s1, s2, s3, s4, s5, _⟩ := pre_then_connect env pre (5 :: 1 :: 0 :: a :: x :: tl) hpre
+  have hrej := (reject_codes env).2.2.1 a x tl h1 h4 h3
+  rw [hr, hflat, ho, hrej]
+  simp [s1, s2, s3, s4, s5, sends, setAddrs, childBytes, List.getLast?_append]
+
+/-- **destination unreachable** (whole history): a well-formed handshake whose eager connection attempt fails, cut
+    in any way: the requested destination is set and tried once, REP 04, client closed, nothing relayed. -/
+theorem unreachable_rejected (env : Env) (segs : List Bytes) (pre : Bytes) (a : UInt8) (ad : Bytes) (p : Nat) (t : Bytes)
+    (hflat : segs.flatten = pre ++ encodeReq a ad p ++ t) (hpre : ValidPre env pre) (hvd : ValidDest a ad p)
+    (he : env.eager = true) (hc : env.connOk = false) :
+    let r := (inc env).feedAll init segs
+    r.1 = .done ∧ sends r.2 = preSends env ++ [reply 4] ∧ r.2.getLast? = some .close ∧
+      setAddrs r.2 = [(a, ad, p)] ∧ childBytes r.2 = [] ∧ Out.childStart ∉ r.2 := by
+  intro r
+  have hr : r = feed env init segs.flatten := seg_independent env init segs
+  obtain ⟨o, ho, s1, s2, s3, s4, s5, _⟩ := pre_then_connect env pre (encodeReq a ad p ++ t) hpre
+  have hrej := (reject_codes env).2.2.2 a ad p t hvd he hc
+  rw [hr, hflat, List.append_assoc, ho, hrej]
+  simp [s1, s2, s3, s4, s5, sends, setAddrs, childBytes, List.getLast?_append]
+
+private theorem pending_quiet (env : Env) (segs : List Bytes)
+    (h1 : ((inc env).feedAll init segs).1 ≠ .relay) (h2 : ((inc env).feedAll init segs).1 ≠ .done) :
+    setAddrs ((inc env).feedAll init segs).2 = [] ∧ childBytes ((inc env).feedAll init segs).2 = [] ∧
+      Out.openServer ∉ ((inc env).feedAll init segs).2 ∧ reply 0 ∉ sends ((inc env).feedAll init segs).2 := by
+  rw [seg_independent] at h1 h2 ⊢
+  rcases run_shape env segs.flatten with hA | ⟨pre, a, ad, p, t, o, _, _, _, hh, _⟩
+  · exact ⟨hA.2.1, hA.2.2.1, hA.2.2.2.2.1, hA.2.2.2.2.2.1⟩
+  · exfalso
+    rw [hh] at h1 h2
+    rcases (connResult_obs env a ad p t).2 with ⟨hr, _⟩ | ⟨hd, _⟩
+    · exact h1 hr
+    · exact h2 hd
+
+/-- **"either rejects … or connects …"**: for every byte stream and every segmentation the machine is in exactly one
+    of three situations — still waiting for handshake bytes (nothing set, opened, relayed or closed beyond the replies
+    so far), rejected (client closed last, nothing relayed, no success reply), or connected (the stream is
+    `greeting [auth] request(a, ad, p) trailing`, that destination is the one set, the success reply was sent and exactly
+    `trailing` reached the next layer). -/
+theorem outcome_trichotomy (env : Env) (segs : List Bytes) :
+    let r := (inc env).feedAll init segs
+    ((∃ buf, r.1 = .greet buf ∨ r.1 = .auth buf ∨ r.1 = .connect buf) ∧
+        setAddrs r.2 = [] ∧ childBytes r.2 = [] ∧ Out.openServer ∉ r.2 ∧ reply 0 ∉ sends r.2) ∨
+    (r.1 = .done ∧ r.2.getLast? = some .close ∧ childBytes r.2 = [] ∧ Out.childStart ∉ r.2 ∧ reply 0 ∉ sends r.2) ∨
+    (r.1 = .relay ∧ ∃ pre a ad p t, segs.flatten = pre ++ encodeReq a ad p ++ t ∧ ValidPre env pre ∧ ValidDest a ad p ∧
+        setAddrs r.2 = [(a, ad, p)] ∧ childBytes r.2 = t ∧ sends r.2 = preSends env ++ [reply 0]) := by
+  intro r
+  have hs := success_reply_iff_accepted env segs
+  simp only at hs
+  cases hst : r.1 with
+  | relay =>
+    right; right
+    obtain ⟨pre, a, ad, p, t, h1, h2, h3, _, h5, h6⟩ := relayed_only_after_request env segs (Or.inl hst)
+    exact ⟨rfl, pre, a, ad, p, t, h1, h2, h3, h6, h5, hs.2 hst⟩
+  | done =>
+    right; left
+    obtain ⟨h1, h2, h3⟩ := reject_closes env segs hst
+    refine ⟨rfl, h1, h2, h3, fun hm => ?_⟩
+    have := hs.1.mp hm
+    rw [hst] at this; cases this
+  | greet buf => left; exact ⟨⟨buf, Or.inl rfl⟩, pending_quiet env segs (by rw [hst]; simp) (by rw [hst]; simp)⟩
+  | auth buf => left; exact ⟨⟨buf, Or.inr (Or.inl rfl)⟩, pending_quiet env segs (by rw [hst]; simp) (by rw [hst]; simp)⟩
+  | connect buf => left; exact ⟨⟨buf, Or.inr (Or.inr rfl)⟩, pending_quiet env segs (by rw [hst]; simp) (by rw [hst]; simp)⟩
+
 /-! ### (T) the model's literals are the constants of the code (Gen/C21.lean is regenerated on every run) -/
 
 open MitmVerif.Gen.C21 in
